@@ -20,7 +20,11 @@ for f in sorted(glob.glob(f'{R}/seeded/*/meta.json')):
                  f"{c['demo_rc_clean']}/{c['demo_rc_patched']} | {'yes' if c['suite_stable_set_ok_with_patch'] else 'NO'} | "
                  f"{'yes' if k['caught'] else 'no'} | {'yes' if k['caught_with_failing_input'] else 'no'} |")
 man = json.load(open(f'{R}/MANIFEST.json'))
-cov = ['| property | theorems (obligations = discharged) | cases / protocol lines in the last quick run | known findings |', '|---|---|---|---|']
+cov = ['| property | theorems (obligations = discharged) | cases / protocol lines in the last quick run | known findings | what is decided |', '|---|---|---|---|---|']
+def mt(pid):
+    try: return json.load(open(f'{R}/manifest_texts/{pid}.json'))
+    except Exception: return {}
+outside = []
 for c in man['checks']:
     pid = c['property_id']
     try:
@@ -29,8 +33,9 @@ for c in man['checks']:
     except Exception:
         row = '? | ?'
     nk = sum(1 for d in kf if d['status'] == 'known' and d['property'] == pid)
-    cov.append(f'| {pid} | {row} | {nk} |')
-tables = {'fixed': '\n'.join(fixed), 'known': '\n'.join(known), 'seeds': '\n'.join(seeds), 'coverage': '\n'.join(cov)}
+    cov.append(f"| {pid} | {row} | {nk} | {esc(mt(pid).get('design_row',''))} |")
+    for o in mt(pid).get('outside', []): outside.append(f'* **{pid}** — {o}')
+tables = {'fixed': '\n'.join(fixed), 'known': '\n'.join(known), 'seeds': '\n'.join(seeds), 'coverage': '\n'.join(cov), 'outside': '\n'.join(outside)}
 p = f'{R}/DESIGN.md'
 s = open(p).read()
 for k, t in tables.items():
